@@ -107,7 +107,10 @@ func RunTLC(tag string, job TLCJob) (*TLCResult, error) {
 	if job.HeapGB <= 0 {
 		job.HeapGB = 8
 	}
-	args := []string{"-XX:+UseParallelGC", "-Xss256m", fmt.Sprintf("-Xmx%dg", job.HeapGB)}
+	// (java.io.tmpdir: TLC unpacks its standard modules into a fresh temporary directory on every
+	// start and never removes it; inside the scratch directory it goes away with it)
+	os.MkdirAll(filepath.Join(dir, "tmp"), 0o755)
+	args := []string{"-XX:+UseParallelGC", "-Xss256m", fmt.Sprintf("-Xmx%dg", job.HeapGB), "-Djava.io.tmpdir=" + filepath.Join(dir, "tmp")}
 	if job.DFS {
 		args = append(args, "-Dtlc2.tool.queue.IStateQueue=StateDeque")
 	}
